@@ -7,7 +7,7 @@ LEVEL = 'exploration'
 MECHANISMS = [('cgsmiles.pysmiles_utils', 'rebuild_h_atoms'), ('cgsmiles.resolve', 'MoleculeResolver.edges_from_bonding_descrpt'), ('cgsmiles.pysmiles_utils', 'read_fragment_smiles')]
 REQUIRED_COUNTERS = ['resolve_calls_observed']
 ASSUMPTIONS = ['independent valence table vmon/gen/mol.py VAL', 'atoms whose heavy-atom bond orders exceed every usual valence are outside the claim and only counted', 'hydrogens written explicitly in a template (they carry a mapping entry) keep their own membership/weight by design']
-RULE = 'mixed resolver workload: unique-label cut molecules (G-mol x G-cut x G-render, all three constructors), shared-atom cases, virtual nodes / zero-order edges, 2-4-level hierarchies (atomistic and coarse last level), coarse cut graphs (a quarter with bead names like NA+, CL-, C1-prime, N-ter), periodic copolymers (the same ordered name pair on several base edges, optionally one surplus base-edge order), and G-ambig polymer inputs (unlabelled $, homopolymers, surplus descriptors, multiplied units, rings, both matching conventions, atomistic and coarse). After EVERY all-atom resolve() call: each heavy atom whose heavy-atom bond orders fit a usual valence carries exactly (smallest fitting valence - sum of orders) hydrogens; every hydrogen has degree 1; completed hydrogens carry the fragid, fragname and weight of their atom. distinct = (kind, feature set, #heavy, #fragments); non-trivial = resolve() completed.'
+RULE = 'mixed resolver workload: unique-label cut molecules (G-mol x G-cut x G-render, all three constructors), shared-atom cases, virtual nodes / zero-order edges, 2-4-level hierarchies (atomistic and coarse last level), coarse cut graphs (a quarter with bead names like NA+, CL-, C1-prime, N-ter), periodic copolymers (the same ordered name pair on several base edges, optionally one surplus base-edge order), and G-ambig polymer inputs (unlabelled $, homopolymers, surplus descriptors, multiplied units, rings, both matching conventions, atomistic and coarse). After EVERY all-atom resolve() call: each heavy atom whose heavy-atom bond orders fit a usual valence carries exactly (smallest fitting valence - sum of orders) hydrogens; every hydrogen has degree 1; completed hydrogens carry the fragid, fragname and weight of their atom. Plus hand-written silicone / selenide / germane / arsine / borane / telluride units (bracket atoms outside the SMILES organic subset, explicit [SiH2]) as chains through the resolver and the sampler, open ends and unused descriptors on those atoms. distinct = (kind, feature set, #heavy, #fragments); non-trivial = resolve() completed.'
 
 
 def setup():
@@ -26,9 +26,70 @@ def cases(seed, tier, shard, nshards):
             continue
         made += 1
         yield dict(c, kind='sampler', features=sorted(set(c['features']) | {'sampler_output'}))
+    for _ in range((300 if tier == 'quick' else 6000) // nshards):
+        yield hetero_case(rng)
+
+
+HETERO = ['{l}[Si](C)(C)O{r}', '{l}[Si](C){r}', '{l}C[SiH2]{r}', '{l}C[Si](C)(C)C{r}', '{l}C[Se]', '{l}C[Se]{r}', '{l}[Se]C{r}',
+          '{l}[Ge](C)(C){r}', '{l}C[GeH2]C{r}', '{l}C[As]', '{l}C[As](C){r}', '{l}C[B]C{r}', '{l}CB(O)O', '{l}C[Te]{r}', '{l}C[Te]',
+          '{l}C[SiH](C){r}', '{l}O[Si](O{r})(C)C', '{l}C[Se][Se]C{r}']
+
+
+def hetero_case(rng):
+    """chains of units with a bracket atom of a main-group element outside the organic subset; open chain ends and unused
+    descriptors sit on those atoms as well"""
+    k = rng.choice(['$', '<>'])
+    l, r = ('[$]', '[$]') if k == '$' else ('[<]', '[>]')
+    names = ['A', 'B'][:rng.choice([1, 1, 2])]
+    frs = {nm: rng.choice(HETERO).format(l=l, r=r) for nm in names}
+    seq = [rng.choice(names) for _ in range(rng.randint(1, 6))]
+    base = '{' + ''.join('[#%s]' % nm for nm in seq) + '}' if rng.random() < 0.5 or len(names) > 1 else '{[#A]|%d}' % len(seq)
+    return dict(kind='hetero', string=base + '.{' + ','.join('#%s=%s' % kv for kv in frs.items()) + '}', via=rng.choice(['resolver', 'resolver', 'sampler']),
+                frag_string='{' + ','.join('#%s=%s' % kv for kv in frs.items()) + '}', seed=rng.randrange(10 ** 6), target=rng.choice([100.0, 300.0]),
+                features=sorted({'bracket_atom_outside_the_organic_subset'} | {'el_' + e for e in ('Si', 'Se', 'Ge', 'As', 'B', 'Te') if any(e in f for f in frs.values())}))
+
+
+def run_hetero(case):
+    from .. import contracts
+    from ..gen.mol import VAL
+    from ..oracles import V
+    contracts.clear()
+    viol, checked = [], 0
+    txt = case['string'] if case['via'] == 'resolver' else f"sampler {case['frag_string']} seed={case['seed']} target={case['target']}"
+    try:
+        if case['via'] == 'resolver':
+            from cgsmiles import MoleculeResolver
+            cg, mol = MoleculeResolver.from_string(case['string']).resolve_all()
+        else:
+            from cgsmiles import MoleculeSampler
+            mol = MoleculeSampler.from_fragment_string(case['frag_string'], polymer_reactivities={}, all_atom=True, seed=case['seed']).sample(case['target'])
+    except Exception as err:
+        contracts.clear()
+        return {'violations': [], 'rejected': {'hetero_not_resolvable_' + type(err).__name__: 1}, 'nontrivial': False, 'cls': 'hetero_rejected', 'sample': txt}
+    for r in contracts.take(PROPERTY):
+        viol.append(V(r['clause'], f"{txt} :: {r['msg']}"))
+    contracts.clear()
+    for a, d in mol.nodes(data=True):
+        el = d.get('element')
+        if el == 'H':
+            if mol.degree(a) != 1:
+                viol.append(V('c09.h_degree', f'{txt}: hydrogen {a} has degree {mol.degree(a)}'))
+                break
+            continue
+        hv = sum(e.get('order', 1) for _, x, e in mol.edges(a, data=True) if mol.nodes[x].get('element') != 'H')
+        tot = sum(e.get('order', 1) for _, x, e in mol.edges(a, data=True))
+        fit = [v for v in (VAL.get((el, d.get('charge', 0))) or []) if v >= hv - 1e-9]
+        if fit:
+            checked += 1
+            if abs(fit[0] - tot) > 1e-9 and not viol:
+                viol.append(V('c09.valence', f'{txt}: atom {a} {el}: heavy bond orders {hv}, all bond orders {tot}, smallest usual valence {fit[0]}'))
+    return {'violations': viol, 'counters': {'hetero_atoms_checked': checked, 'resolve_calls_observed': 0}, 'nontrivial': len(mol) > 1,
+            'cls': ('hetero', case['via'], tuple(case['features'])), 'sample': txt}
 
 
 def run(case):
+    if case['kind'] == 'hetero':
+        return run_hetero(case)
     if case['kind'] != 'sampler':
         return poststate.run(PROPERTY, case)
     from . import samplercommon as SC
